@@ -34,6 +34,10 @@ class D(Driver):
 
     def make_world(self, job):
         w = World(job)
+        if w.opts.get("resolver") is not None:
+            from .base import resolver
+            w.resolver_calls = []
+            w.hooks["resolver"] = resolver
         w.api_count = 0
         w.plan = []         # list of (k, kind, phase)
         w.fired = []
@@ -63,6 +67,12 @@ def jobs(tier):
                 continue
             out.append({"prop": PROP, "cfg": cfg, "order": "asc", "base": "B1", "scripts": A.stamp(sc),
                         "opts": {}, "pairs": tier != "quick" and n == 1})
+    # a fault in the middle of conflict resolution (application resolver answering merged data / one side, loser dropped)
+    for cfg in cfgs:
+        for shape, path in (("write", "a"), ("create", "c")):
+            for b in ("merged_drop", "local_drop", "remote_keep"):
+                out.append({"prop": PROP, "cfg": cfg, "order": "asc", "base": "B1",
+                            "scripts": [[[shape, path, "L1"]], [[shape, path, "R1"]]], "opts": {"resolver": b, "users_first": True}})
     for cfg in cfgs:
         for variant in ("locked", "badname"):
             for lift in (0, 1, 2, 4, 8):
@@ -94,7 +104,8 @@ def run_job(job):
         calls = None
     finally:
         w.close()
-    if not base["converged"] or base["lost"]:
+    dropped_by_resolver = set(base["lost"]) if (job.get("opts") or {}).get("resolver") else set()    # (the application's own choice)
+    if not base["converged"] or (base["lost"] and not dropped_by_resolver):
         return _result(job, 1, len(hist), 1, {}, "base-fails (see C01/C02)", hist, {})
     # which call indexes are mutators: learn from a traced base run
     w = drv.make_world(job)
@@ -123,6 +134,13 @@ def run_job(job):
         for k1 in range(1, N + 1):
             for k2 in range(k1 + 1, min(N, k1 + 10) + 1):
                 plans.append([(k1, "temporary", "before"), (k2, "disconnected", "before")])
+    elif len(job["scripts"][0]) + len(job["scripts"][1]) == 1:
+        # two faults in a row on the intake path: the events() call fails, and so does one of the next few calls
+        for k1 in range(1, N + 1):
+            if names.get(k1, (None, "?"))[1] != "events":
+                continue
+            for k2 in range(k1 + 1, min(N + 1, k1 + 6) + 1):
+                plans.append([(k1, "temporary", "before"), (k2, "temporary", "before")])
     has_later_user_op = sum(1 for a in hist if a in ("UL", "UR")) >= 2
     plans = [(pl, False) for pl in plans] + ([(pl, True) for pl in plans if len(pl) == 1] if has_later_user_op else [])
     for plan, users_now in plans:
@@ -150,8 +168,10 @@ def run_job(job):
                     bad = ("busy", {"pending": j["busy"]})
                 elif not j["converged"]:
                     bad = ("diverge", j["trees"])
-                elif j["lost"]:
-                    bad = ("lost:" + ",".join(j["lost"]), j["trees"])
+                elif [c for c in j["lost"] if c not in dropped_by_resolver]:
+                    bad = ("lost:" + ",".join(c for c in j["lost"] if c not in dropped_by_resolver), j["trees"])
+                elif dropped_by_resolver and j["trees"] != base["trees"]:
+                    bad = ("resolution-differs", {"got": j["trees"], "undisturbed": base["trees"]})
                 else:
                     for (idx, side, name, kind, phase) in w.fired:
                         want = NOTE_FOR.get(kind)
